@@ -15,15 +15,17 @@ demo=$(ls "$SRC"/demo_test.go "$SRC"/demo*_test.go 2>/dev/null | head -1)
 pkgdir=.
 grep -q '^package hmac' "$demo" && pkgdir=internal/hmac
 tests=$(grep -o '^func Test[A-Za-z0-9_]*' "$demo" | sed 's/func //' | paste -sd'|')
+RACE=""
+grep -q -- "-race" "$demo" && RACE="-race"
 log="$SCR/verify.log"
 {
 echo "== seed $ID  (source $SRC)"; echo "demo tests: $tests (package dir $pkgdir)"
 cp "$demo" "$pkgdir/zz_seed_demo_test.go"
 echo "-- demo WITHOUT the change (must pass)"
-timeout 300 go test -vet=off -count=1 -timeout 120s -run "^($tests)\$" ./$pkgdir 2>&1 | tail -5; r0=${PIPESTATUS[0]}
+timeout 600 go test $RACE -vet=off -count=1 -timeout 300s -run "^($tests)\$" ./$pkgdir 2>&1 | tail -5; r0=${PIPESTATUS[0]}
 patch -s -p1 <"$SRC/patch.diff" || { echo "PATCH DOES NOT APPLY"; exit 3; }
 echo "-- demo WITH the change (must fail)"
-timeout 300 go test -vet=off -count=1 -timeout 120s -run "^($tests)\$" ./$pkgdir 2>&1 | tail -12; r1=${PIPESTATUS[0]}
+timeout 600 go test $RACE -vet=off -count=1 -timeout 300s -run "^($tests)\$" ./$pkgdir 2>&1 | tail -12; r1=${PIPESTATUS[0]}
 rm -f "$pkgdir/zz_seed_demo_test.go"
 echo "-- existing suite WITH the change (must pass, run twice)"
 go build ./... && go test -vet=off -count=1 ./... 2>&1 | grep -v "no test files"; r2=${PIPESTATUS[1]}
